@@ -200,6 +200,17 @@ func c18Bases() []c18Base {
 			pages: map[string]string{"p": "<m>\nP\n</m>", "q": "5"},
 			uses:  map[string][]string{"layouts/main.tw": {"p"}},
 		},
+		{
+			// the layout has no reserve (so it is a page as well), sorts after the page that uses it, and uses a component itself
+			files: map[string]string{
+				"a.tw":    "@use(\"zlay\")",
+				"zlay.tw": "<z>@component(\"zc\", {n: 1})</z>",
+				"zc.tw":   "C{{ 1 + 1 }}",
+				"m.tw":    "middle",
+			},
+			pages: map[string]string{"a": "<z>C2</z>", "zlay": "<z>C2</z>", "zc": "C2", "m": "middle"},
+			uses:  map[string][]string{"zlay.tw": {"a"}, "zc.tw": {"a", "zlay"}},
+		},
 	}
 }
 
@@ -378,6 +389,11 @@ func c18Run(c *Ctx) {
 	}
 	// (b) faults first (few)
 	for bi, base := range c18Bases() {
+		if c.Mine() {
+			if !do(c18Case{Mode: "fault", Base: bi, Target: "does-not-exist.tw", Fault: "deleted"}, true) { // the intact tree itself
+				return
+			}
+		}
 		var files []string
 		for f := range base.files {
 			files = append(files, f)
